@@ -8,7 +8,7 @@ from alphabets import TABLES
 import dec_engine as de
 import gens_smiles as gs
 
-RT_INVARIANTS = ["OutInGrammar", "WellFormedOut", "SameAtoms", "SameBonds", "SameMarks", "SameSense",
+RT_INVARIANTS = ["AroEdgesAgree", "OutInGrammar", "WellFormedOut", "SameAtoms", "SameBonds", "SameMarks", "SameSense",
                  "ReencodeFixpoint", "StrictExact", "TwoOutcomes"]
 
 # SMILES token alphabets (each token = symbol with its preceding bond character)
@@ -136,6 +136,8 @@ def corpus_trace(rep, name, quick, own, tables, per_file, variants, files=None, 
     rng = random.Random(seed() * 7 + hash(name) % 1000)
     corp = gs.corpus(rng, per_file, variants, files=files)
     corp += [("extra", s) for s in extra]
+    if quick:      # the trace judge is quadratic in the size of the molecule: peptides etc. only in the thorough tier
+        corp = [(src, s) for src, s in corp if len(s) <= 260 or src == "extra"]
     if flt:
         corp = [(src, s) for src, s in corp if flt(s)]
     seen = set()
